@@ -124,7 +124,11 @@ pub struct Scenario {
     pub net: NetCfg,
     pub closer: Side,
     pub close_code: u64,
+    pub oversize_rx: bool,
 }
+
+/// how many scenarios in 1024 may have quiche send datagrams larger than s2n-quic's receive buffer
+pub static OVERSIZE_PER_1024: std::sync::atomic::AtomicU64 = std::sync::atomic::AtomicU64::new(64);
 
 pub const DEFAULT_WINDOW: u64 = u64::MAX; // "leave the implementation's default"
 
@@ -197,7 +201,7 @@ impl Scenario {
 
         // ---- quiche
         let max_send_udp = r.range(1200, 1500) as usize;
-        let q = QCfg {
+        let mut q = QCfg {
             initial_max_data: draw_window(&mut r, 20),
             max_stream_data_bidi_local: draw_window(&mut r, 20),
             max_stream_data_bidi_remote: draw_window(&mut r, 20),
@@ -249,6 +253,16 @@ impl Scenario {
             rng_seed: r.next(),
         };
 
+        // s2n-quic never advertises max_udp_payload_size, yet IO providers without GRO (the
+        // testing provider among them) size their receive buffers by `max_mtu` and truncate
+        // anything larger (finding `rx_truncation_unadvertised_limit`, see README). Keep quiche's
+        // datagrams within s2n-quic's receive buffer except in a small "oversize" class, so
+        // that the finding stays visible without masking everything else.
+        let oversize_rx = r.below(1024) < OVERSIZE_PER_1024.load(std::sync::atomic::Ordering::Relaxed);
+        if !oversize_rx {
+            q.max_send_udp = q.max_send_udp.min(s2n.max_mtu as usize);
+        }
+        let max_send_udp = q.max_send_udp;
         // the path carries everything quiche may send without probing; s2n-quic's MTU probes
         // beyond it are black-holed like on a real path
         let path_payload = if q.pmtud || r.chance(1, 2) {
@@ -305,6 +319,7 @@ impl Scenario {
             net,
             closer: if r.chance(1, 2) { Side::S2n } else { Side::Quiche },
             close_code: *r.pick(&[0u64, 1, 7, 0x101, 0x3fff_ffff]),
+            oversize_rx,
         };
         s.cap_sizes();
         s
@@ -466,12 +481,13 @@ impl Scenario {
 
     pub fn class(&self) -> String {
         format!(
-            "{}/{}/loss-{}/{}{}",
+            "{}/{}/loss-{}/{}{}{}",
             self.role.name(),
             self.window_bucket(),
             self.loss_class(),
             self.stream_mix(),
-            if self.reorder() { "/reorder" } else { "" }
+            if self.reorder() { "/reorder" } else { "" },
+            if self.oversize_rx && self.q.max_send_udp > self.s2n.max_mtu as usize { "/oversize" } else { "" }
         )
     }
 
@@ -479,7 +495,7 @@ impl Scenario {
         let w = |v: u64| if v == DEFAULT_WINDOW { json!("default") } else { json!(v) };
         json!({
             "seed": self.seed, "index": self.index, "role": self.role.name(),
-            "closer": self.closer.name(), "close_code": self.close_code,
+            "closer": self.closer.name(), "close_code": self.close_code, "oversize_rx": self.oversize_rx,
             "streams": self.streams.iter().map(|s| json!({
                 "id": s.id, "opener": s.opener.name(), "bidi": s.bidi, "fwd": s.fwd, "rev": s.rev,
                 "chunk": [s.chunk_lo, s.chunk_hi], "s2n_read_pause_us": s.s2n_read_pause_us,
